@@ -95,7 +95,15 @@ func (g graph) text(i int, withImports bool) string {
 	}
 	// the references to imported types sit in a message, so that cyclic imports do not make a struct
 	// contain itself
-	fmt.Fprintf(&b, "struct S%d {\n\tint32 own%d;\n}\n", i, i)
+	// what a file needs from the Go side varies with its number: dates (package time) only in files 1, 4, 7, ...
+	switch i % 3 {
+	case 1:
+		fmt.Fprintf(&b, "struct S%d {\n\tint32 own%d;\n\tdate when%d;\n}\n", i, i, i)
+	case 2:
+		fmt.Fprintf(&b, "struct S%d {\n\tint32 own%d;\n\tguid id%d;\n\tmap[string, date[]] log%d;\n}\n", i, i, i, i)
+	default:
+		fmt.Fprintf(&b, "struct S%d {\n\tint32 own%d;\n}\n", i, i)
+	}
 	fmt.Fprintf(&b, "message M%d {\n\t1 -> S%d s;\n", i, i)
 	for k, t := range g.Edges[i] {
 		if t != i {
@@ -464,12 +472,24 @@ func main() {
 	fmt.Printf("C18: evaluations=%d distinct=%d failures=%d\n", st.Evaluations, st.DistinctNontrivial, st.FailuresTotal)
 }
 
-// declSet: the sorted set of top-level `type X …` / `func …` declaration headers of a Go source text.
+// declSet: the sorted set of top-level `type X …` / `func …` declaration headers and of the imported Go packages of a Go source text.
 func declSet(src string) string {
 	var ds []string
+	inImports := false
 	for _, l := range strings.Split(src, "\n") {
 		if strings.HasPrefix(l, "type ") || strings.HasPrefix(l, "func ") {
 			ds = append(ds, l)
+		}
+		// the Go packages the output imports are part of what it says
+		switch {
+		case strings.HasPrefix(l, "import ("):
+			inImports = true
+		case inImports && strings.HasPrefix(l, ")"):
+			inImports = false
+		case inImports && strings.TrimSpace(l) != "":
+			ds = append(ds, "import "+strings.TrimSpace(l))
+		case strings.HasPrefix(l, "import \""):
+			ds = append(ds, strings.TrimSpace(l))
 		}
 	}
 	sort.Strings(ds)
